@@ -164,8 +164,9 @@ func checkC11(c *Case, st *Stats) *Violation {
 			finalErr = err
 			return
 		}
-		if c.Pkg == "gzip" {
-			// in multistream mode a gzip Reader legitimately looks for a next member
+		multi := c.Pkg == "gzip" && c.K%2 == 1
+		if c.Pkg == "gzip" && !multi {
+			// in multistream mode a gzip Reader legitimately looks for a next member before io.EOF
 			rd.(interface{ Multistream(bool) }).Multistream(false)
 		}
 		i := 0
@@ -179,7 +180,7 @@ func checkC11(c *Case, st *Stats) *Violation {
 				finalErr = e
 				return
 			}
-			if len(got) >= len(want) && !atEnd {
+			if len(got) >= len(want) && (!atEnd || multi) {
 				return // everything before the point has been delivered
 			}
 			if i > 1<<20 {
@@ -196,7 +197,7 @@ func checkC11(c *Case, st *Stats) *Violation {
 		}
 		return viol(c, "withheld/"+key, "%s Reader (%s over %s): source delivered the %d bytes up to the %s; %d bytes of data are decodable from them but the Reader handed out %d and then %s", c.Pkg, c.Ctor, c.Src, c.K, map[bool]string{true: "end of the stream", false: "sync-flush point"}[atEnd], len(want), len(got), what)
 	}
-	if atEnd {
+	if atEnd && !(c.Pkg == "gzip" && c.K%2 == 1) {
 		if blocked {
 			return viol(c, "eof-needs-more/"+key, "%s Reader: all %d bytes of the stream were delivered, the data was handed out, but io.EOF requires the source to deliver more (it blocks)", c.Pkg, c.K)
 		}
